@@ -47,11 +47,14 @@
 //	                                                       permanent protocol error was delivered (weaker reading: the
 //	                                                       send-failure retry of an attempt that was started earlier is
 //	                                                       not a new attempt)
-//	attempt-starts-exceed-max-retries                       initial attempt + Decide()==Retry decisions <= MaxRetries+1
 //	send-failure-retries-exceed-allowed                     no send-failure retry after more than SendRelayAttempts
 //	                                                       consecutive send failures
-//	(together: send instructions <= MaxRetries + 1 + number of allowed send-failure retries — the weakest reading of
-//	"the configured maximum plus the allowed send-failure retries")
+//	attempts-exceed-max-retries-plus-send-retries           send attempts decided (initial + Decide()==Retry + send-failure
+//	                                                       retries) <= MaxRetries + 1 + max(SendRelayAttempts, send-failure
+//	                                                       retries made) — the weakest reading of "the configured maximum
+//	                                                       plus the allowed send-failure retries": it accepts both the
+//	                                                       constant bound MaxRetries+SendRelayAttempts+1 and any number of
+//	                                                       individually allowed send-failure retries
 //	send-instruction-without-policy-decision                bookkeeping guard: every send instruction is the initial one
 //	                                                       or follows a recorded retry decision
 package c34
@@ -60,7 +63,6 @@ import (
 	"context"
 	"errors"
 	"fmt"
-	"os"
 	"sort"
 	"strings"
 	"sync"
@@ -124,12 +126,9 @@ func buildScenarios() {
 						b = "batch"
 					}
 					base := fmt.Sprintf("%s-%s-r%d-s%d", selName(sel), b, mr, sa)
-					d := 2
-					if v := os.Getenv("VERIF_C34_DEV"); v != "" {
-						fmt.Sscan(v, &d)
-					}
-					scenarios = append(scenarios, scenario{base + "-dev2", sel, batch, mr, sa, d, false})
-					scenarios = append(scenarios, scenario{base + "-dev3", sel, batch, mr, sa, 3, true})
+					scenarios = append(scenarios, scenario{base + "-dev2", sel, batch, mr, sa, 2, false})
+					// the smallest Stateless configuration is explored with 3 deviations in the quick tier too
+					scenarios = append(scenarios, scenario{base + "-dev3", sel, batch, mr, sa, 3, !(sel == relaycore.Stateless && !batch && mr == 2 && sa == 1)})
 					if sel != relaycore.Stateless || batch || mr == 2 {
 						scenarios = append(scenarios, scenario{base + "-dev4", sel, batch, mr, sa, 4, true})
 					}
@@ -347,7 +346,6 @@ func makeSystem(sc scenario) events.System {
 		utils.SetGlobalLoggingLevel("fatal")
 		retries = lavaprotocol.NewRelayRetriesManager()
 	})
-	profTick()
 	clock.Reset()
 	s := &system{sc: sc, successStep: -1, sendOKStep: -1, fatalStep: -1, overtaken: map[int]bool{}, reasons: map[string]bool{}, starts: 1}
 	s.ticks = sc.maxRetries + 1
@@ -503,8 +501,20 @@ func (s *system) attemptStarted(how string, attemptNumber int) {
 	if s.sc.sel != relaycore.Stateless && s.sendOKStep >= 0 {
 		s.viol = append(s.viol, pendingViol{"resend-after-successful-send", fmt.Sprintf("%s request: %s although a send had succeeded at event %d", selName(s.sc.sel), how, s.sendOKStep)})
 	}
-	if s.starts > s.sc.maxRetries+1 {
-		s.viol = append(s.viol, pendingViol{"attempt-starts-exceed-max-retries", fmt.Sprintf("attempt %d was started (the initial one + %d retries; the last one: %s, AttemptNumber given to the policy %d) with MaxRetries = %d", s.starts, s.starts-1, how, attemptNumber, s.sc.maxRetries)})
+	s.checkBound(fmt.Sprintf("%s with AttemptNumber %d", how, attemptNumber))
+}
+
+// checkBound (s.mu held): send attempts decided so far (initial + Decide()==Retry + send-failure retries) against the
+// weakest reading of "the configured maximum plus the allowed send-failure retries": MaxRetries retries + the initial
+// attempt + the larger of SendRelayAttempts and the number of send-failure retries that were made (each of them is
+// checked separately to have been allowed, key send-failure-retries-exceed-allowed).
+func (s *system) checkBound(last string) {
+	allowance := s.sc.sendAttempts
+	if s.sendRetries > allowance {
+		allowance = s.sendRetries
+	}
+	if attempts := s.starts + s.sendRetries; attempts > s.sc.maxRetries+1+allowance {
+		s.viol = append(s.viol, pendingViol{"attempts-exceed-max-retries-plus-send-retries", fmt.Sprintf("%d send attempts were started (the initial one, %d retries decided by Decide, %d send-failure retries; the last one: %s) with MaxRetries = %d and SendRelayAttempts = %d: more than MaxRetries + 1 + max(SendRelayAttempts, send-failure retries made) = %d", attempts, s.starts-1, s.sendRetries, last, s.sc.maxRetries, s.sc.sendAttempts, s.sc.maxRetries+1+allowance)})
 	}
 }
 
@@ -525,6 +535,7 @@ func (s *system) noteSendResult(err error, res relaycore.SendResult) {
 	case relaycore.SendRetry:
 		s.reasons["send:retry"] = true
 		s.sendRetries++
+		s.checkBound("a send-failure retry")
 		if err == nil || s.consecErr > s.sc.sendAttempts {
 			s.viol = append(s.viol, pendingViol{"send-failure-retries-exceed-allowed", fmt.Sprintf("a send-failure retry was decided after %d consecutive send failures with SendRelayAttempts = %d", s.consecErr, s.sc.sendAttempts)})
 		}
@@ -767,8 +778,6 @@ func (s *system) Close() {
 	}
 	close(s.quit)
 	clock.Deactivate()
-	events.Quiesce()
-	leakCheck()
 }
 
 // ---------------------------------------------------------------------------------------------------
@@ -816,14 +825,14 @@ func run(r *ev.Run) {
 	sort.Strings(rs)
 	r.Set("decisions_and_endings_reached", rs)
 	r.Set("engine", "events")
-	devs := "2"
+	devs := "2 (3 for Stateless, single message, MaxRetries 2, SendRelayAttempts 1)"
 	if ev.Tier() == "thorough" {
 		devs = "2, 3 and (all but Stateless with a single message and MaxRetries 3) 4"
 	}
 	r.Set("bound", "real UnifiedRelayStateMachine + real relaypolicy.Policy with the consumer configuration; selection in {Stateless, Stateful (2 sessions per send), CrossValidation (2 participants, threshold 2)} x {single, batch message (DisableBatchRequestRetry default)} x MaxRetries in {2,3} x SendRelayAttempts in {1,2}; "+
 		"every order of the enabled events UpdateBatch(nil | pairing-list-empty | error), result(success | node-error | node-error-nonretryable | protocol-error | epoch-mismatch) for the oldest in-flight relay, tick, rc-timer, processing-timeout; "+
 		"at most "+devs+" deviations (send errors, non-success results, a tick overtaking a pending 15 ms sleep, an early processing timeout); relay timeout 1 s, processing timeout after MaxRetries+2 ticks; one event per quiescent point")
-	r.Set("attempt_bound_used", "weakest reading: (initial attempt + Decide()==Retry decisions) <= MaxRetries+1 and no send-failure retry after more than SendRelayAttempts consecutive send failures, i.e. send instructions <= MaxRetries + 1 + allowed send-failure retries")
+	r.Set("attempt_bound_used", "weakest reading: send attempts decided (initial + Decide()==Retry + send-failure retries) <= MaxRetries + 1 + max(SendRelayAttempts, send-failure retries made), and no send-failure retry after more than SendRelayAttempts consecutive send failures")
 	r.Assume("event granularity: one environment event is delivered at a time and the goroutines of the state machine run to quiescence before the next one (GOMAXPROCS=1, no asynchronous preemption; guarded by 5x replay of every candidate); while the machine is blocked handing a send instruction to the busy consumer only the consumer's completion is delivered")
 	r.Assume("unified_relay_state_machine.go is compiled from a derived overlay copy in which only the imports \"time\" and \"context\" are rewritten to virtual-clock shims (tools/overlaygen_events.py)")
 	r.Assume("the results checker is a mock with the counting rules of RelayProcessor.WaitForResults/HasRequiredNodeResults/GetResultsSummary; the relay sender, the protocol message (a real BaseProtocolMessage over a stub chain message) and the consumer loop (structure of ProcessRelaySend, real UsedProviders) are harness code; retry decisions are observed through a recording wrapper that forwards to the real relaypolicy.Policy")
